@@ -601,7 +601,33 @@ func (e *Exec) lookup(in *ssa.Lookup, x, k Value) Value {
 	switch m := x.(type) {
 	case Str:
 		return e.indexValue(m, k, in.Index.Type())
+	case MapSel:
+		var val, pres *term.Term
+		for j := len(m.Maps) - 1; j >= 0; j-- {
+			mj := m.Maps[j]
+			if mj.M == nil || mj.M.TM == nil {
+				e.unsupported("symbolic selection among non-term maps")
+			}
+			v, p := e.tmLookup(mj.M.TM, e.keyTerm(mj.M.TM, k))
+			if val == nil {
+				val, pres = v, p
+			} else {
+				c := e.TB.Eq(m.Idx, e.TB.Const(m.Idx.W, uint64(j)))
+				val, pres = e.TB.Ite(c, v, val), e.TB.Ite(c, p, pres)
+			}
+		}
+		if in.CommaOk {
+			return Tuple{e.termVal(val), e.fromBoolTerm(pres)}
+		}
+		return e.termVal(val)
 	case MapV:
+		if m.M != nil && m.M.TM != nil {
+			v, p := e.tmLookup(m.M.TM, e.keyTerm(m.M.TM, k))
+			if in.CommaOk {
+				return Tuple{e.termVal(v), e.fromBoolTerm(p)}
+			}
+			return e.termVal(v)
+		}
 		vt := in.X.Type().Underlying().(*types.Map).Elem()
 		i := -1
 		if m.M != nil {
@@ -623,6 +649,21 @@ func (e *Exec) lookup(in *ssa.Lookup, x, k Value) Value {
 }
 
 func (e *Exec) mapUpdate(mv, k, v Value) {
+	if ms, ok := mv.(MapSel); ok {
+		for j, mj := range ms.Maps {
+			if mj.M == nil {
+				e.unsupported("symbolic selection including a nil map")
+			}
+			e.monWriteMap(mj.M)
+			e.tmUpdate(mj.M.TM, e.TB.Eq(ms.Idx, e.TB.Const(ms.Idx.W, uint64(j))), e.keyTerm(mj.M.TM, k), e.valTerm(v), true)
+		}
+		return
+	}
+	if m0, ok := mv.(MapV); ok && m0.M != nil && m0.M.TM != nil {
+		e.monWriteMap(m0.M)
+		e.tmUpdate(m0.M.TM, e.TB.True, e.keyTerm(m0.M.TM, k), e.valTerm(v), true)
+		return
+	}
 	m, ok := mv.(MapV)
 	if !ok {
 		e.unsupported(fmt.Sprintf("MapUpdate on %T", mv))
@@ -640,6 +681,18 @@ func (e *Exec) mapUpdate(mv, k, v Value) {
 }
 
 func (e *Exec) mapDelete(mv, k Value) {
+	if ms, ok := mv.(MapSel); ok {
+		for j, mj := range ms.Maps {
+			e.monWriteMap(mj.M)
+			e.tmUpdate(mj.M.TM, e.TB.Eq(ms.Idx, e.TB.Const(ms.Idx.W, uint64(j))), e.keyTerm(mj.M.TM, k), e.tmZero(mj.M.TM), false)
+		}
+		return
+	}
+	if m0, ok := mv.(MapV); ok && m0.M != nil && m0.M.TM != nil {
+		e.monWriteMap(m0.M)
+		e.tmUpdate(m0.M.TM, e.TB.True, e.keyTerm(m0.M.TM, k), e.tmZero(m0.M.TM), false)
+		return
+	}
 	m := mv.(MapV)
 	if m.M == nil {
 		return
